@@ -35,7 +35,7 @@ fn check_select(files: &[Vec<u8>]) -> Result<(), String> {
     let expected = files.iter().flat_map(|f| oracle_lines(f)).map(|l| format!("'{}'", String::from_utf8(l).unwrap())).collect::<Vec<_>>();   // text format shows a TEXT value in quotes
     match run(DEF, "SELECT input FROM t", files) {
         Outcome::Lines(lines, total) => {
-            if lines != expected { return Err(format!("files {:?}: SELECT input printed {:?}, the lines are {:?}", files.iter().map(|f| show(f)).collect::<Vec<_>>(), lines, expected)); }
+            if lines != expected { return Err(format!("files {:?}: SELECT input printed {:?}, the lines are {:?}", files.iter().map(|f| show(f)).collect::<Vec<_>>(), lines.iter().map(|l| short(l)).collect::<Vec<_>>(), expected.iter().map(|l| short(l)).collect::<Vec<_>>())); }
             if total != expected.len() as u64 { return Err(format!("files {:?}: {} lines were counted, the files hold {}", files.iter().map(|f| show(f)).collect::<Vec<_>>(), total, expected.len())); }
             Ok(())
         }
@@ -75,7 +75,7 @@ fn verif_grid() {
         g.case(&format!("three-files-{}-{}-{}", i, j, k), move || check_select(&f));
     } } }
     // long lines and many lines
-    for (i, n) in [1usize, 4095, 4096, 4097, 8192, 8193, 20000].iter().enumerate() {
+    for (i, n) in [1usize, 4095, 4096, 4097, 8192, 8193, 20000, 65536, 1048575, 1048576, 1048577, 3000000].iter().enumerate() {
         let long = "y".repeat(*n);
         let f = vec![b(&format!("{}\nv=1\n{}", long, long))];
         g.case(&format!("long-line-{}", i), move || check_select(&f));
@@ -96,6 +96,25 @@ fn verif_grid() {
             Outcome::Lines(lines, _) => if lines.iter().any(|l| l == "'v=2'") && lines.iter().any(|l| l == "'v=3'") && lines.iter().any(|l| l == "'v=4'") { Ok(()) }
                 else { Err(format!("lines after an invalid UTF-8 line were dropped without an error: printed {:?}", lines)) },
             other => Err(format!("{:?}", other)),
+        });
+    }
+    // ... in the joined file too: an error, or the later lines still join
+    for (i, bad) in [vec![0xffu8], vec![b'x', 0xc3]].iter().enumerate() {
+        let mut joined = b("v=1\n");
+        joined.extend_from_slice(bad);
+        joined.extend_from_slice(b"\nv=2\nv=3\n");
+        g.case(&format!("joined-file-invalid-utf8-{}", i), move || {
+            let path = write_temp("joined", &joined);
+            let def = "CREATE TABLE t(line = '(.*)', line[1] => x TEXT); CREATE TABLE u(line = '(.*)', line[1] => y TEXT);";
+            let r = run(def, &format!("SELECT x FROM t INNER JOIN u::'{}' ON t.x = u.y", path.display()), &[b("v=1\nv=2\nv=3\n")]);
+            let _ = std::fs::remove_file(&path);
+            match r {
+                Outcome::Error(_) => Ok(()),
+                Outcome::Lines(lines, _) => { let lines: Vec<String> = lines.into_iter().filter(|l| !l.is_empty()).collect();
+                    if lines == vec!["x: 'v=1'".to_owned(), "x: 'v=2'".to_owned(), "x: 'v=3'".to_owned()] { Ok(()) }
+                    else { Err(format!("the joined file has a line that is not valid UTF-8 before `v=2` and `v=3`: no error was reported and the join printed {:?}", lines)) } }
+                other => Err(format!("{:?}", other)),
+            }
         });
     }
     // the joined file is read the same way: every line once
